@@ -242,9 +242,14 @@ def check(case: Dict[str, Any]) -> Outcome:
                     )
                 else:
                     out.fail("lost-response:other", f"caller {i}: response at t={fa[0]} deadline {T}; dequeued_by={takers}; ended with {val!r}")
-            elif kind == "return" and not strict_eq(val, {"for": f"c{i}", "k": fa[1]}):
-                # a later duplicate answer for the same caller returned instead of the first
-                pass
+            elif kind == "return" and str(i) not in falsy and i not in err_for:
+                # the server may answer twice (a retry, a proxy repeating itself): the call completes with the FIRST
+                # response bearing its id, whoever happened to dequeue the two copies
+                mine_idx = [ix for ix in res.delivered_idx if ix < len(answers) and answers[ix][1] == i]
+                if mine_idx and isinstance(val, dict) and val.get("k") != mine_idx[0] and len(mine_idx) > 1:
+                    same_instant = abs(answers[mine_idx[0]][0] - answers[mine_idx[1]][0]) < 1e-9
+                    if not same_instant:
+                        out.fail("returned-a-later-duplicate-instead-of-the-first-response", f"caller {i}: first answer was #{mine_idx[0]} (t={answers[mine_idx[0]][0] / 100.0}), returned #{val.get('k')}")
         elif fa is None or fa[0] > T + 1e-9:
             if kind == "return":
                 out.fail("returned-without-own-response", f"caller {i} returned {val!r} but no answer before its deadline")
@@ -298,6 +303,21 @@ def job_exhaustive(col: Collector, seed: int, tier: str, shard: int, nshards: in
                     continue
                 case = {"n": 2, "timeouts": [200, 200], "answers": [[inst[k], perm[k]] for k in range(2)], "notifs": [], "phases": list(phs)}
                 col.record(case, check(case))
+    # duplicated answers: the original and a copy 10 ms later, for each caller, in each answer order, with the owner at
+    # the front or at the back of the queue of waiting receivers (a notification at t=0.05 sends one caller to the back)
+    for n_ in (2, 3):
+        for perm in itertools.permutations(range(n_)):
+            for who in range(n_):
+                for t_dup in (10, 52):
+                    for notif in ([], [5]):
+                        i += 1
+                        if i % nshards != shard:
+                            continue
+                        answers = [[t_dup + 3 * k, perm[k]] for k in range(n_)]
+                        pos = next(k for k in range(n_) if perm[k] == who)
+                        answers.insert(pos + 1, [answers[pos][0] + 1, who])
+                        case = {"n": n_, "timeouts": [200] * n_, "answers": answers, "notifs": notif}
+                        col.record(case, check(case))
     # one caller's token is cancelled while it is blocked; the next message it dequeues is a peer's response
     for n_ in (2, 3):
         for who in range(n_):
@@ -334,6 +354,10 @@ def cases(draw):
     case = {"n": n, "timeouts": timeouts, "answers": answers, "notifs": notifs, "errors": errors}
     if draw(st.integers(0, 2)) == 0:
         case["typed"] = [i for i in range(n) if draw(st.booleans())]
+    if draw(st.integers(0, 3)) == 0 and case["answers"]:
+        # a duplicate of some answer shortly after the original
+        t0_, who_ = draw(st.sampled_from(case["answers"]))
+        case["answers"] = case["answers"] + [[t0_ + draw(st.sampled_from([1, 2, 5, 20])), who_]]
     if draw(st.integers(0, 3)) == 0:
         who = draw(st.integers(0, n - 1))
         case["cancel"] = {str(who): draw(tgrid)}
